@@ -37,9 +37,10 @@ def alphabet(world, full):
 class System(ManagerSystem):
     prop = "C17"
 
-    def __init__(self, world, cfg, info, H1, K, H2):
+    def __init__(self, world, cfg, info, H1, K, H2, free=False):
         super().__init__(world, cfg, info)
         self.H1, self.K, self.H2 = H1, K, H2
+        self.free = free
         self.i_freeze = self.universe.index(("freeze",))
         self.i_unfreeze = self.universe.index(("unfreeze",))
 
@@ -53,8 +54,11 @@ class System(ManagerSystem):
         return 2, len(hist) - u - 1
 
     def enabled_ops(self, hist, ms):
-        ph, n = self.phase(hist)
         base = mgr.enabled(ms, self.universe, False)
+        if self.free:
+            # freeze_tree / unfreeze_tree are ordinary operations: any number of freeze periods, redundant and unbalanced calls
+            return base
+        ph, n = self.phase(hist)
         if ph == 0:
             out = [i for i in base if i not in (self.i_unfreeze,)]
             if n >= self.H1:
@@ -79,7 +83,7 @@ class System(ManagerSystem):
                     # these legitimately drop empty index entries; compare after doing the same
                     before.m.cleanup()
                     w.m.cleanup()
-                if mgr.canon(before) != mgr.canon(w):
+                if mgr.canon_obs(before) != mgr.canon_obs(w):
                     issues.append(self.issue("violation", hist, op,
                                              "a call on a frozen manager changed the manager's state",
                                              {"indices_before": mgr.index_dump(before.m), "indices_after": mgr.index_dump(w.m),
@@ -105,7 +109,7 @@ class System(ManagerSystem):
             except Exception as e:  # noqa
                 issues.append(self.issue("violation", hist, op, f"never-frozen twin raised {type(e).__name__}: {e}"))
                 return issues
-            if mgr.canon(tw) != mgr.canon(w):
+            if mgr.canon_obs(tw) != mgr.canon_obs(w):
                 issues.append(self.issue("violation", hist, op,
                                          "state after unfreeze differs from the manager that was never frozen",
                                          {"indices": mgr.index_dump(w.m), "twin_indices": mgr.index_dump(tw.m),
@@ -113,9 +117,19 @@ class System(ManagerSystem):
         return issues
 
 
+def tiny_alphabet(world):
+    leaves = world["leaves"][:3]
+    return {"leaves": leaves, "sources": leaves, "values": (3, 5), "templates": ("mul2",), "unreg": False,
+            "extra": [("freeze",), ("unfreeze",), ("refresh",)]}
+
+
 def plan(tier, seed):
     seeds = common.seeds_for(tier, seed, quick=(0,), thorough=(0, 1, 2))
     jobs = []
+    for wname, depth in ([("W-flat", 7), ("W-nest-4", 6)] if tier == "quick" else [("W-flat", 9), ("W-nest-4", 8), ("W-nest", 8)]):
+        jobs.append({"name": f"bfs-free:{wname}:tiny:d{depth}:seed{seeds[0]}", "mode": "compiled", "hashseed": seeds[0],
+                     "nproc": 4 if tier == "quick" else 8, "timeout": 3000,
+                     "args": {"world": wname, "free": True, "depth": depth, "time_cap": 1500}})
     if tier == "quick":
         runs = [("W-nest-4", False, 1, 2, 1), ("W-flat", True, 1, 1, 1), ("W-nest", True, 0, 2, 0), ("W-nest-4", False, 2, 1, 0)]
     else:
@@ -129,14 +143,19 @@ def plan(tier, seed):
     return {"level": LEVEL, "jobs": jobs,
             "assumptions": [
                 "refresh/verify/cleanup on a frozen manager may either raise ValueError or succeed; either way nothing observable may change",
-                "phased histories: h1 . freeze . k calls . unfreeze . h2 with the stated bounds",
+                "phased histories: h1 . freeze . k calls . unfreeze . h2 with the stated bounds over the full alphabet; plus, over a tiny "
+                "alphabet (3 locations, two values, one template), freeze_tree/unfreeze_tree as ordinary operations at any point to a larger "
+                "depth: several freeze periods, redundant and unbalanced calls",
             ]}
 
 
 def run_job(job):
     a = job["args"]
     w = WORLDS[a["world"]]
-    s = System(w, alphabet(w, a["full"]), common.config_info(job), a["H1"], a["K"], a["H2"])
+    if a.get("free"):
+        s = System(w, tiny_alphabet(w), common.config_info(job), 0, 0, 0, free=True)
+    else:
+        s = System(w, alphabet(w, a["full"]), common.config_info(job), a["H1"], a["K"], a["H2"])
     return common.run_bfs(s, job)
 
 
@@ -154,7 +173,7 @@ def replay(issue):
     import ast
     case = issue["case"]
     ops = [ast.literal_eval(s) for s in issue["ops"]]
-    s = System(WORLDS[case["world"]], {"extra": ops + [("freeze",), ("unfreeze",)], "values": ()}, issue.get("config"), 99, 99, 99)
+    s = System(WORLDS[case["world"]], {"extra": ops + [("freeze",), ("unfreeze",)], "values": ()}, issue.get("config"), 99, 99, 99, free=True)
     s.universe = ops + [("freeze",), ("unfreeze",)]
     s.i_freeze = s.universe.index(("freeze",))
     s.i_unfreeze = s.universe.index(("unfreeze",))
